@@ -21,4 +21,8 @@ func checkC17(c *Check) {
 	ruleLiveness(c, p, "R17.6")
 	ruleCloseFlushes(c, p, "R17.7")
 	ruleDirectWrite(c, p, "R17.7")
+	ruleBuffersRefetched(c, p, "R17.8", "Writer", "Reader", "CompressingReader")
+	ruleStreamFieldsRearmed(c, p, "R17.9")
+	c.RuleDoc["R17.8"] = "block-sized buffers are re-fetched from the current block size at frame start"
+	c.RuleDoc["R17.9"] = "per-stream fields written by the data path are re-initialised by init or Reset"
 }
